@@ -10,7 +10,8 @@ from ..ref import names, conform, binary, container
 
 LEVEL = "fault_enumeration"
 RULE = (
-    "files: codec in {null, deflate, bzip2, xz} x {0,1,2,3 blocks} x schemas {int, record, union, zero-byte record, string} "
+    "files: codec in {null, deflate, bzip2, xz} x {0,1,2,3 blocks} x schemas {int, record, union, zero-byte record, string, boolean, a record ending in every fixed-width type, int with 70-record blocks "
+    "(two-byte block counts)} "
     "written by the real writer with a fixed marker; EVERY cut offset 0..len of each file is read by reader and by "
     "block_reader: records yielded before stopping must be a bit-exact prefix of the written list, normal termination iff "
     "the cut is the end of the header or the end of a block's marker (boundaries from the independent parser), otherwise an "
@@ -34,6 +35,7 @@ SCHEMAS = [
     ("zero", {"type": "record", "name": "Z", "fields": []}, [{}, {}, {}, {}, {}, {}]),
     ("string", "string", ["", "a", "bc" * 20, "é", "z" * 130, "q"]),
     ("boolean", "boolean", [False, True, False, False, True, False]),
+    ("int-many", "int", list(range(-3, 207))),  # blocks of 70 records: the block count is a two-byte varint
     ("tail", {"type": "record", "name": "Tail", "fields": [
         {"name": "f", "type": "float"}, {"name": "d", "type": "double"}, {"name": "by", "type": "bytes"},
         {"name": "fx", "type": {"type": "fixed", "name": "Fx", "size": 2}}, {"name": "m", "type": {"type": "map", "values": "boolean"}},
@@ -66,6 +68,8 @@ def build(fa, si, codec, nblocks):
 
     w = Writer(fo, copy.deepcopy(raw), codec=codec, sync_interval=10 ** 9, sync_marker=marker)
     per = [[], [recs[0], recs[1]], [recs[2]], [recs[3], recs[4], recs[5]]]
+    if name.endswith("-many"):
+        per = [[], recs[0:70], recs[70:140], recs[140:210]]
     written = []
     for b in range(1, nblocks + 1):
         for r in per[b]:
